@@ -34,6 +34,9 @@ class AsyncSocket(base_socket.BaseSocket):
 
     async def receive(self, pkt):
         """Receive packet from the client."""
+        if self.closed:
+            # nothing received after the session ended is acted upon
+            raise exceptions.SocketIsClosedError()
         packet_name = packet.packet_names[pkt.packet_type] \
             if pkt.packet_type < len(packet.packet_names) else 'UNKNOWN'
         self.server.logger.info('%s: Received packet %s data %s',
@@ -248,9 +251,8 @@ class AsyncSocket(base_socket.BaseSocket):
                 break
             except:
                 break
-            if p is None or self.closed:
-                # connection closed by client, or the session has ended and
-                # nothing received after that may reach the application
+            if p is None:
+                # connection closed by client
                 break
             try:
                 pkt = packet.Packet(encoded_packet=p)
